@@ -60,3 +60,18 @@ package loop
 //@ func DetectLoops$2
 //@   requires 0 <= i && i < len((*loop).Exits) && 0 <= j && j < len((*loop).Exits)
 //@   ensures result == ((*loop).Exits[i].Index < (*loop).Exits[j].Index)
+
+// ---- C12: the exiting test is read with its polarity. The count logic below the switch treats the comparison as the
+// condition under which the loop continues: when the true branch of the test leaves the loop it is the negated
+// comparison that continues. isUpCounting ("the induction variable runs up towards the limit") must therefore be:
+// the continue-comparison is a less-than comparison exactly when the induction variable stands on its left (the limit is the right operand).
+//@ pred lessOp(op token.Token) = op == token.LSS || op == token.LEQ
+//@ pred greaterOp(op token.Token) = op == token.GTR || op == token.GEQ
+//@ pred contLess(op token.Token, trueStays bool) = ite(trueStays, lessOp(op), greaterOp(op))
+//@ func deriveTripCount
+//@   noframe
+// stays (ghost): whether the true branch of the exiting test stays in the loop, recorded when the operands are
+// inspected (before the SCEV machinery runs, which the later returns follow).
+//@   ghost stays bool
+//@   call deriveTripCount$1 update stays = loop.Blocks[exitBlock.Succs[0]]
+//@   return-ensures [C12.polarity] iv != nil && !isNEQ && len(exitBlock.Succs) == 2 && binOp.X != binOp.Y ==> isUpCounting == (contLess(binOp.Op, stays) == (limit == binOp.Y))
